@@ -35,6 +35,12 @@ pub enum Corr {
     CrOnly,
     Upper(u8),
     Lower(u8),
+    /// replace one *numeric value* of a line (not the id) by a special but parseable number: the file
+    /// is still accepted and the odd value travels through the whole computation
+    Special(u8, u8, String),
+    /// the same for every numeric value of a line
+    #[serde(alias = "SpecialAll")]
+    SpecialLine(u8, String),
 }
 
 #[derive(Clone, Debug, Serialize, Deserialize)]
@@ -71,6 +77,13 @@ pub struct CliOpts {
     pub missing_components_file: bool,
     pub verbose: u8,
     pub no_strip: bool,
+    /// no -c option at all (the program then only handles the factors)
+    #[serde(default)]
+    pub no_components: bool,
+    #[serde(default)]
+    pub license: bool,
+    #[serde(default)]
+    pub red2: Option<[String; 3]>,
 }
 
 const NUM_TOKENS: [&str; 26] = [
@@ -117,6 +130,8 @@ const META_VALUES: [&str; 30] = [
     "a, b, c", ",,", "", "NaN, NaN, NaN", "inf", "1e39, 0, 0", "-1, -1, -1", "PENINSULA", "peninsula", "100.5", "0", "1", "0.5", "-0.0", "1:2:3",
 ];
 
+const SPECIAL_VALUES: [&str; 14] = ["NaN", "inf", "-inf", "-0", "1e39", "-1e39", "1e-46", "-1", "-4.5", "-1e9", "3.4e38", "-3.4e38", "0", "1e30"];
+
 fn corr_s() -> BoxedStrategy<Corr> {
     let tok = prop_oneof![select(NUM_TOKENS.to_vec()), select(TAG_TOKENS.to_vec())].prop_map(|s| s.to_string());
     prop_oneof![
@@ -136,6 +151,12 @@ fn corr_s() -> BoxedStrategy<Corr> {
         (any::<u8>(), select(META_KEYS.to_vec()), select(META_VALUES.to_vec())).prop_map(|(a, k, v)| Corr::InsertRaw(a, format!("#META {}: {}", k, v))),
         (any::<u8>(), "[ -~]{0,40}").prop_map(|(a, t)| Corr::InsertRaw(a, t)),
         Just(Corr::CrOnly),
+        (any::<u8>(), any::<u8>(), select(SPECIAL_VALUES.to_vec())).prop_map(|(a, b, t)| Corr::Special(a, b, t.to_string())),
+        (any::<u8>(), any::<u8>(), select(SPECIAL_VALUES.to_vec())).prop_map(|(a, b, t)| Corr::Special(a, b, t.to_string())),
+        (any::<u8>(), any::<u8>(), select(SPECIAL_VALUES.to_vec())).prop_map(|(a, b, t)| Corr::Special(a, b, t.to_string())),
+        (any::<u8>(), any::<u8>(), select(SPECIAL_VALUES.to_vec())).prop_map(|(a, b, t)| Corr::Special(a, b, t.to_string())),
+        (any::<u8>(), select(SPECIAL_VALUES.to_vec())).prop_map(|(a, t)| Corr::SpecialLine(a, t.to_string())),
+        (any::<u8>(), select(SPECIAL_VALUES.to_vec())).prop_map(|(a, t)| Corr::SpecialLine(a, t.to_string())),
         any::<u8>().prop_map(Corr::Upper),
         any::<u8>().prop_map(Corr::Lower),
     ]
@@ -204,6 +225,33 @@ pub fn apply(lines: &[String], ops: &[Corr]) -> String {
                 fs[j] = format!(" {}", t);
                 ls[i] = fs.join(",");
             }
+            Corr::Special(l, f, t) if n > 0 => {
+                let i = idx(*l, n);
+                let (body, comment) = match ls[i].find('#') {
+                    Some(p) => (ls[i][..p].to_string(), ls[i][p..].to_string()),
+                    None => (ls[i].clone(), String::new()),
+                };
+                let mut fs = fields(&body);
+                let numeric: Vec<usize> = (1..fs.len()).filter(|j| fs[*j].trim().parse::<f32>().is_ok()).collect();
+                if !numeric.is_empty() {
+                    fs[numeric[idx(*f, numeric.len())]] = format!(" {} ", t);
+                    ls[i] = format!("{}{}", fs.join(","), comment);
+                }
+            }
+            Corr::SpecialLine(l, t) if n > 0 => {
+                let i = idx(*l, n);
+                let (body, comment) = match ls[i].find('#') {
+                    Some(p) => (ls[i][..p].to_string(), ls[i][p..].to_string()),
+                    None => (ls[i].clone(), String::new()),
+                };
+                let mut fs = fields(&body);
+                for j in 1..fs.len() {
+                    if fs[j].trim().parse::<f32>().is_ok() {
+                        fs[j] = format!(" {}", t);
+                    }
+                }
+                ls[i] = format!("{}{}", fs.join(","), comment);
+            }
             Corr::AppendValue(l, t) if n > 0 => {
                 let i = idx(*l, n);
                 ls[i] = format!("{}, {}", ls[i], t);
@@ -258,7 +306,10 @@ fn wild_building_lines(quick: bool) -> BoxedStrategy<Vec<String>> {
     let mut p = BParams::std(quick);
     p.max_steps = 6;
     p.with_needs = true;
-    (building(&p), layout_s(), any::<u8>(), any::<u8>())
+    let mut p2 = p.clone();
+    p2.cogen_heavy = true;
+    p2.aux_non_epb = true;
+    (prop_oneof![building(&p), building(&p2)], layout_s(), any::<u8>(), any::<u8>())
         .prop_map(|(mut b, lay, drop_kind, which)| {
             // undo a guarantee: drop all lines of one kind chosen at random (cogeneration input,
             // SALIDA, CONSUMO of one system, ...)
@@ -352,8 +403,9 @@ fn cli_opts_s() -> BoxedStrategy<CliOpts> {
         prop::bool::weighted(0.05),
         0u8..4,
         any::<bool>(),
+        (prop::bool::weighted(0.08), prop::bool::weighted(0.03), proptest::option::weighted(0.1, (weird(), weird(), weird()))),
     )
-        .prop_map(|(kexp, arearef, red1, loc_opt, outputs, bad_output_dir, missing_components_file, verbose, no_strip)| CliOpts {
+        .prop_map(|(kexp, arearef, red1, loc_opt, outputs, bad_output_dir, missing_components_file, verbose, no_strip, (no_components, license, red2))| CliOpts {
             kexp,
             arearef,
             red1: red1.map(|(a, b, c)| [a, b, c]),
@@ -363,6 +415,9 @@ fn cli_opts_s() -> BoxedStrategy<CliOpts> {
             missing_components_file,
             verbose,
             no_strip,
+            no_components,
+            license,
+            red2: red2.map(|(a, b, c)| [a, b, c]),
         })
         .boxed()
 }
@@ -524,8 +579,19 @@ impl Prop for C16 {
 
 pub fn cli_argv(c: &Case, o: &CliOpts, has_factors_file: bool) -> Vec<String> {
     let mut a: Vec<String> = vec![];
-    a.push("-c".into());
-    a.push(if o.missing_components_file { "no_existe.csv".into() } else { "comp.csv".into() });
+    if !o.no_components {
+        a.push("-c".into());
+        a.push(if o.missing_components_file { "no_existe.csv".into() } else { "comp.csv".into() });
+    }
+    if o.license {
+        a.push("--licencia".into());
+    }
+    if let Some(t) = &o.red2 {
+        a.push("--red2".into());
+        for x in t {
+            a.push(x.clone());
+        }
+    }
     if has_factors_file {
         a.push("-f".into());
         a.push("fact.csv".into());
